@@ -11,6 +11,15 @@ Proof.
   cbn [orb]. destruct (_ && _); [|discriminate]. intros [= _ <-]. auto.
 Qed.
 
+(* the message as a whole succeeds only when its core does, and with the same result *)
+Lemma v1_place_bid_ok cf ao lv a s who bid wd pin pout x :
+  v1_place_bid cf ao lv a s who bid wd pin pout = Ok x -> v1_place_bid_core cf ao a s who bid wd = Ok x.
+Proof.
+  unfold v1_place_bid. destruct (v1_place_bid_core cf ao a s who bid wd) as [[[s' [b|]] r]| |]; try (intros H; exact H).
+  destruct (v_lend cf); [|intros H; exact H].
+  destruct (v1_lend_unliquidate cf lv (i_target a) pin pout); intros H; [exact H|discriminate|discriminate].
+Qed.
+
 (* what the code keeps true of a live auction without any assumption on prices *)
 Record v1good (a : v1auc) : Prop := {
   vg_o : 0 <= o_cur a;
@@ -21,9 +30,9 @@ Definition v1_bonus_of (cf : v1cfg) (slice : Z) : Z :=
   if v_lend cf then dtrunc_int (dmul (dec_of_int slice) (v_bonus cf)) else 0.
 
 (* everything the property needs to know about the amounts of a successful bid *)
-Lemma v1_bid_amounts cf ao a s who bid wd s' a' r :
+Lemma v1_bid_amounts cf ao lv a s who bid wd pin pout s' a' r :
   v1good a -> (v_lend cf = true -> 0 <= v_bonus cf) -> (v_lend cf = false -> v_bonus cf = 0) ->
-  v1_place_bid cf ao a s who bid wd = Ok (s', a', r) ->
+  v1_place_bid cf ao lv a s who bid wd pin pout = Ok (s', a', r) ->
   let tab := i_target a - i_cur a in
   0 <= w_paid r <= tab /\ 0 <= w_slice r <= o_cur a /\
   w_recv r = w_slice r + v1_bonus_of cf (w_slice r) /\ 0 <= v1_bonus_of cf (w_slice r) /\
@@ -39,7 +48,7 @@ Lemma v1_bid_amounts cf ao a s who bid wd s' a' r :
             (0 < w_topup r -> w_slice r = o_cur a)
   end.
 Proof.
-  intros [Go Gi] Hb Hb0 H tab. unfold v1_place_bid in H. fold tab in H.
+  intros [Go Gi] Hb Hb0 H tab. apply v1_place_bid_ok in H. unfold v1_place_bid_core in H. fold tab in H.
   destruct (Z.eqb_spec bid 0); [discriminate|]. destruct wd; [discriminate|].
   destruct (Z.gtb_spec bid (o_cur a)); [discriminate|].
   apply obind_ok in H as ([owe0 infl0] & Hc0 & H). apply opanic_ok, conv2_c_some in Hc0 as (Hc0 & _ & _).
@@ -123,17 +132,17 @@ Definition V1Inv (cf : v1cfg) (coll0 target : Z) (f : v1life) : Prop :=
   | None => g_paid f + g_top f = target /\ g_recv f <= coll0
   end.
 
-Lemma v1_step_inv cf ao coll0 target f o :
+Lemma v1_step_inv cf ao lv coll0 target f o :
   (v_lend cf = true -> 0 <= v_bonus cf) -> (v_lend cf = false -> v_bonus cf = 0) ->
-  V1Inv cf coll0 target f -> V1Inv cf coll0 target (v1_step cf ao f o).
+  V1Inv cf coll0 target f -> V1Inv cf coll0 target (v1_step cf ao lv f o).
 Proof.
   intros Hb Hb0 (Hp & Hr & Hbo & Ht & Hbs & Hbv & HI). unfold v1_step.
   destruct (g_a f) as [a|] eqn:Ea; [|unfold V1Inv; rewrite Ea; auto 10].
   assert (HIf : V1Inv cf coll0 target f) by (unfold V1Inv; rewrite Ea; auto 10).
   destruct HI as (GA & Htg & Hpd & Hrc & Ht0).
-  destruct o as [who amt wd | now pin pout].
-  - destruct (v1_place_bid cf ao a (g_s f) who amt wd) as [[[s' a'] r]| |] eqn:E; try exact HIf.
-    pose proof (v1_bid_amounts _ _ _ _ _ _ _ _ _ _ GA Hb Hb0 E) as (Hpaid & Hsl & Hrv & Hbn0 & Hbn1 & _ & _ & Hrest).
+  destruct o as [who amt wd bpin bpout | now pin pout].
+  - destruct (v1_place_bid cf ao lv a (g_s f) who amt wd bpin bpout) as [[[s' a'] r]| |] eqn:E; try exact HIf.
+    pose proof (v1_bid_amounts _ _ _ _ _ _ _ _ _ _ _ _ _ GA Hb Hb0 E) as (Hpaid & Hsl & Hrv & Hbn0 & Hbn1 & _ & _ & Hrest).
     assert (Hbv' : v_lend cf = false -> w_recv r - w_slice r = 0).
     { intros Hl. rewrite Hrv. unfold v1_bonus_of. rewrite Hl. lia. }
     unfold V1Inv; cbn. destruct GA as [Go Gi]. destruct a' as [b|].
@@ -148,9 +157,9 @@ Proof.
     split; [constructor; lia|]. lia.
 Qed.
 
-Lemma v1_run_inv cf ao coll0 target ops :
+Lemma v1_run_inv cf ao lv coll0 target ops :
   (v_lend cf = true -> 0 <= v_bonus cf) -> (v_lend cf = false -> v_bonus cf = 0) ->
-  forall f, V1Inv cf coll0 target f -> V1Inv cf coll0 target (v1_run cf ao f ops).
+  forall f, V1Inv cf coll0 target f -> V1Inv cf coll0 target (v1_run cf ao lv f ops).
 Proof.
   intros Hb Hb0. induction ops as [|o ops IH]; intros f HI; [exact HI|].
   cbn. apply IH. apply v1_step_inv; assumption.
@@ -174,11 +183,11 @@ Proof.
   split; [constructor; cbn; lia|]. repeat split; try lia; reflexivity.
 Qed.
 
-Lemma v1_totals cf coll ao pen fees now pin pout a0 s ops :
+Lemma v1_totals cf lv coll ao pen fees now pin pout a0 s ops :
   (v_lend cf = true -> 0 <= v_bonus cf) -> (v_lend cf = false -> v_bonus cf = 0) ->
   0 <= coll -> 0 <= ao -> 0 <= pen -> 0 <= fees ->
   v1_activate cf coll ao pen fees now pin pout = Ok a0 ->
-  let f := v1_run cf ao (mkV1L s (Some a0) 0 0 0 0) ops in
+  let f := v1_run cf ao lv (mkV1L s (Some a0) 0 0 0 0) ops in
   0 <= g_paid f <= i_target a0 /\ 0 <= g_recv f <= coll /\
   0 <= g_bonus f /\ g_bonus f * P18 <= g_recv f * v_bonus cf /\
   match g_a f with
@@ -191,7 +200,7 @@ Proof.
   destruct (v1_activate_good _ _ _ _ _ _ _ _ _ Hc Ha Hp Hf Ea) as (GA & Ho & Hi & Htg & _).
   assert (HI : V1Inv cf coll (i_target a0) (mkV1L s (Some a0) 0 0 0 0)).
   { unfold V1Inv; cbn. repeat split; try lia; try apply GA. }
-  pose proof (v1_run_inv cf ao coll (i_target a0) ops Hb Hb0 _ HI) as (Hpd & Hr & Hbo & Ht & Hbs & _ & HF). fold f in Hpd, Hr, Hbo, Ht, Hbs, HF.
+  pose proof (v1_run_inv cf ao lv coll (i_target a0) ops Hb Hb0 _ HI) as (Hpd & Hr & Hbo & Ht & Hbs & _ & HF). fold f in Hpd, Hr, Hbo, Ht, Hbs, HF.
   destruct (g_a f) as [a|].
   - destruct HF as ([Go Gi] & H1 & H2 & H3 & H4). repeat split; lia.
   - destruct HF as (H1 & H2). repeat split; lia.
@@ -218,9 +227,9 @@ Proof.
 Qed.
 
 (* the closing bid of a VAULT auction: every account as a sum of transfers *)
-Lemma v1_close_ledger_vault cf ao a s who bid wd s' r :
+Lemma v1_close_ledger_vault cf ao lv a s who bid wd pin pout s' r :
   v_lend cf = false -> v_bonus cf = 0 -> v1good a -> 0 <= ao <= i_target a ->
-  v1_place_bid cf ao a s who bid wd = Ok (s', None, r) ->
+  v1_place_bid cf ao lv a s who bid wd pin pout = Ok (s', None, r) ->
   v_netfee s' = Some (match v_netfee s with Some x => x | None => 0 end - w_topup r + (i_target a - ao)) /\
   (0 < w_topup r -> exists nf0, v_netfee s = Some nf0 /\ w_topup r < nf0) /\
   forall k, v_led s' k = v_led s k
@@ -233,8 +242,8 @@ Lemma v1_close_ledger_vault cf ao a s who bid wd s' r :
 Proof.
   intros Hl Hb0 GA Hao H.
   assert (Hb : v_lend cf = true -> 0 <= v_bonus cf) by (rewrite Hl; discriminate).
-  pose proof (v1_bid_amounts _ _ _ _ _ _ _ _ _ _ GA Hb (fun _ => Hb0) H) as (Hpaid & Hsl & _ & _ & _ & _ & _ & _ & Htp0 & Hsum & Hso).
-  unfold v1_place_bid in H.
+  pose proof (v1_bid_amounts _ _ _ _ _ _ _ _ _ _ _ _ _ GA Hb (fun _ => Hb0) H) as (Hpaid & Hsl & _ & _ & _ & _ & _ & _ & Htp0 & Hsum & Hso).
+  apply v1_place_bid_ok in H. unfold v1_place_bid_core in H.
   destruct (Z.eqb_spec bid 0); [discriminate|]. destruct wd; [discriminate|].
   destruct (Z.gtb_spec bid (o_cur a)); [discriminate|].
   apply obind_ok in H as ([owe0 infl0] & _ & H).
@@ -266,9 +275,9 @@ Qed.
 (* close completeness, vault: the auction account loses exactly this auction's collateral and the debt it had
    collected; principal burned, the rest of the target to the collector (whose fee book follows), unsold
    collateral to the owner *)
-Lemma v1_close_complete_vault cf ao a s who bid wd s' r :
+Lemma v1_close_complete_vault cf ao lv a s who bid wd pin pout s' r :
   v_lend cf = false -> v_bonus cf = 0 -> v1good a -> 0 <= ao <= i_target a -> 0 <= who ->
-  v1_place_bid cf ao a s who bid wd = Ok (s', None, r) ->
+  v1_place_bid cf ao lv a s who bid wd pin pout = Ok (s', None, r) ->
   i_cur a + w_paid r + w_topup r = i_target a /\
   v_led s' AUC_C = v_led s AUC_C - o_cur a /\
   v_led s' AUC_D = v_led s AUC_D - i_cur a /\
@@ -279,8 +288,8 @@ Lemma v1_close_complete_vault cf ao a s who bid wd s' r :
 Proof.
   intros Hl Hb0 GA Hao Hwho H.
   assert (Hb : v_lend cf = true -> 0 <= v_bonus cf) by (rewrite Hl; discriminate).
-  pose proof (v1_bid_amounts _ _ _ _ _ _ _ _ _ _ GA Hb (fun _ => Hb0) H) as (Hpaid & Hsl & _ & _ & _ & _ & _ & _ & Htp0 & Hsum & _).
-  destruct (v1_close_ledger_vault _ _ _ _ _ _ _ _ _ Hl Hb0 GA Hao H) as (Hnf & _ & HL).
+  pose proof (v1_bid_amounts _ _ _ _ _ _ _ _ _ _ _ _ _ GA Hb (fun _ => Hb0) H) as (Hpaid & Hsl & _ & _ & _ & _ & _ & _ & Htp0 & Hsum & _).
+  destruct (v1_close_ledger_vault _ _ _ _ _ _ _ _ _ _ _ _ Hl Hb0 GA Hao H) as (Hnf & _ & HL).
   split; [exact Hsum|].
   pose proof (HL AUC_C) as EC. pose proof (HL AUC_D) as ED. pose proof (HL OWN_C) as EO. pose proof (HL (BID_C who)) as EB.
   pose proof (HL BRN_D) as EBr. pose proof (HL COL_D) as ECo. clear HL.
@@ -294,9 +303,9 @@ Proof.
 Qed.
 
 (* the closing bid of a LEND auction *)
-Lemma v1_close_complete_lend cf ao a s who bid wd s' r :
+Lemma v1_close_complete_lend cf ao lv a s who bid wd pin pout s' r :
   v_lend cf = true -> 0 <= v_bonus cf -> v1good a -> 0 <= who ->
-  v1_place_bid cf ao a s who bid wd = Ok (s', None, r) ->
+  v1_place_bid cf ao lv a s who bid wd pin pout = Ok (s', None, r) ->
   i_cur a + w_paid r + w_topup r = i_target a /\
   v_led s' AUC_C = v_led s AUC_C - o_cur a - (w_recv r - w_slice r) /\
   v_led s' AUC_D = v_led s AUC_D /\
@@ -306,9 +315,9 @@ Lemma v1_close_complete_lend cf ao a s who bid wd s' r :
 Proof.
   intros Hl Hbon GA Hwho H.
   assert (Hb0 : v_lend cf = false -> v_bonus cf = 0) by (rewrite Hl; discriminate).
-  pose proof (v1_bid_amounts _ _ _ _ _ _ _ _ _ _ GA (fun _ => Hbon) Hb0 H) as (Hpaid & Hsl & Hrv & Hbn0 & _ & _ & _ & _ & Htp0 & Hsum & Hso).
+  pose proof (v1_bid_amounts _ _ _ _ _ _ _ _ _ _ _ _ _ GA (fun _ => Hbon) Hb0 H) as (Hpaid & Hsl & Hrv & Hbn0 & _ & _ & _ & _ & Htp0 & Hsum & Hso).
   split; [exact Hsum|].
-  unfold v1_place_bid in H.
+  apply v1_place_bid_ok in H. unfold v1_place_bid_core in H.
   destruct (Z.eqb_spec bid 0); [discriminate|]. destruct wd; [discriminate|].
   destruct (Z.gtb_spec bid (o_cur a)); [discriminate|].
   apply obind_ok in H as ([owe0 infl0] & _ & H).
@@ -360,15 +369,15 @@ Proof.
 Qed.
 
 (* ---------- each bid exchanges at the posted price ---------- *)
-Lemma v1_bid_price_holds cf ao a s who bid wd s' a' r :
+Lemma v1_bid_price_holds cf ao lv a s who bid wd pin pout s' a' r :
   v1good a -> (v_lend cf = true -> 0 <= v_bonus cf) -> (v_lend cf = false -> v_bonus cf = 0) ->
   0 < v_dout cf <= P18 -> 0 < v_din cf <= P18 -> v_dout cf <= p_out a -> v_din cf <= p_in a ->
-  v1_place_bid cf ao a s who bid wd = Ok (s', a', r) ->
+  v1_place_bid cf ao lv a s who bid wd pin pout = Ok (s', a', r) ->
   holds_C10_v1_bid (v_dout cf) (v_din cf) (p_out a) (p_in a) (v_bonus cf) (o_cur a) (i_target a - i_cur a)
                    (w_paid r) (w_recv r) (w_slice r) = true.
 Proof.
   intros GA Hb Hb0 Hdo Hdi Hpo Hpi H.
-  pose proof (v1_bid_amounts _ _ _ _ _ _ _ _ _ _ GA Hb Hb0 H) as (Hpaid & Hsl & Hrv & Hbn0 & Hbn1 & Hnr & Hre & _).
+  pose proof (v1_bid_amounts _ _ _ _ _ _ _ _ _ _ _ _ _ GA Hb Hb0 H) as (Hpaid & Hsl & Hrv & Hbn0 & Hbn1 & Hnr & Hre & _).
   cbv zeta in *. set (tab := i_target a - i_cur a) in *.
   unfold holds_C10_v1_bid.
   assert (Hprice : (w_slice r * (p_out a * v_din cf) <? (w_paid r + 3) * (p_in a * v_dout cf)) ||
@@ -409,16 +418,16 @@ Qed.
 
 (* ---------- custody over the whole life ---------- *)
 (* a partial bid: bidder and auction account only (lend: the payment goes on to the pool) *)
-Lemma v1_partial_ledger cf ao a s who bid wd s' b r :
+Lemma v1_partial_ledger cf ao lv a s who bid wd pin pout s' b r :
   v1good a -> (v_lend cf = true -> 0 <= v_bonus cf) -> (v_lend cf = false -> v_bonus cf = 0) ->
-  v1_place_bid cf ao a s who bid wd = Ok (s', Some b, r) ->
+  v1_place_bid cf ao lv a s who bid wd pin pout = Ok (s', Some b, r) ->
   v_netfee s' = v_netfee s /\
   forall k, v_led s' k = v_led s k + delta k (BID_D who) AUC_D (w_paid r) + delta k AUC_C (BID_C who) (w_recv r)
                          + (if v_lend cf then delta k AUC_D POOL_D (w_paid r) else 0).
 Proof.
   intros GA Hb Hb0 H.
-  pose proof (v1_bid_amounts _ _ _ _ _ _ _ _ _ _ GA Hb Hb0 H) as (Hpaid & Hsl & Hrv & Hbn0 & _).
-  unfold v1_place_bid in H.
+  pose proof (v1_bid_amounts _ _ _ _ _ _ _ _ _ _ _ _ _ GA Hb Hb0 H) as (Hpaid & Hsl & Hrv & Hbn0 & _).
+  apply v1_place_bid_ok in H. unfold v1_place_bid_core in H.
   destruct (Z.eqb_spec bid 0); [discriminate|]. destruct wd; [discriminate|].
   destruct (Z.gtb_spec bid (o_cur a)); [discriminate|].
   apply obind_ok in H as ([owe0 infl0] & _ & H).
@@ -461,57 +470,57 @@ Definition V1Cust (cf : v1cfg) (coll0 c0 d0 : Z) (f : v1life) : Prop :=
   v_led (g_s f) AUC_C - live_o f = c0 - coll0 - g_bonus f /\
   v_led (g_s f) AUC_D - live_i cf f = d0.
 
-Lemma v1_step_cust cf ao coll0 target c0 d0 f o :
+Lemma v1_step_cust cf ao lv coll0 target c0 d0 f o :
   (v_lend cf = true -> 0 <= v_bonus cf) -> (v_lend cf = false -> v_bonus cf = 0) ->
   (v_lend cf = false -> 0 <= ao <= target) ->
-  (match o with V1Bid who _ _ => 0 <= who | _ => True end) ->
-  V1Inv cf coll0 target f -> V1Cust cf coll0 c0 d0 f -> V1Cust cf coll0 c0 d0 (v1_step cf ao f o).
+  (match o with V1Bid who _ _ _ _ => 0 <= who | _ => True end) ->
+  V1Inv cf coll0 target f -> V1Cust cf coll0 c0 d0 f -> V1Cust cf coll0 c0 d0 (v1_step cf ao lv f o).
 Proof.
   intros Hb Hb0 Hao Hwho (Hp & Hr & Hbo & Ht & Hbs & Hbv & HI) (HC & HD). unfold v1_step.
   destruct (g_a f) as [a|] eqn:Ea; [|split; assumption].
   assert (HCf : V1Cust cf coll0 c0 d0 f) by (split; assumption).
   destruct HI as (GA & Htg & Hpd & Hrc & Ht0).
   unfold live_o, live_i in HC, HD. rewrite Ea in HC, HD.
-  destruct o as [who amt wd | now pin pout].
-  - destruct (v1_place_bid cf ao a (g_s f) who amt wd) as [[[s' a'] r]| |] eqn:E; try exact HCf.
-    pose proof (v1_bid_amounts _ _ _ _ _ _ _ _ _ _ GA Hb Hb0 E) as (Hpaid & Hsl & Hrv & Hbn0 & Hbn1 & _ & _ & Hrest).
+  destruct o as [who amt wd bpin bpout | now pin pout].
+  - destruct (v1_place_bid cf ao lv a (g_s f) who amt wd bpin bpout) as [[[s' a'] r]| |] eqn:E; try exact HCf.
+    pose proof (v1_bid_amounts _ _ _ _ _ _ _ _ _ _ _ _ _ GA Hb Hb0 E) as (Hpaid & Hsl & Hrv & Hbn0 & Hbn1 & _ & _ & Hrest).
     unfold V1Cust, live_o, live_i; cbn [g_s g_a g_bonus].
     destruct a' as [b|].
     + destruct Hrest as (_ & Htp & Hob & Hib & _).
-      destruct (v1_partial_ledger _ _ _ _ _ _ _ _ _ _ GA Hb Hb0 E) as (_ & HL).
+      destruct (v1_partial_ledger _ _ _ _ _ _ _ _ _ _ _ _ _ GA Hb Hb0 E) as (_ & HL).
       pose proof (HL AUC_C) as EC. pose proof (HL AUC_D) as ED. clear HL.
       unfold delta, AUC_C, AUC_D, POOL_D, BID_C, BID_D in *.
       destruct (v_lend cf).
       * split. { clear - EC HC Hwho Hob Hrv. revert EC. eqbs. } { clear - ED HD Hwho. revert ED. eqbs. }
       * split. { clear - EC HC Hwho Hob Hrv. revert EC. eqbs. } { clear - ED HD Hwho Hib. revert ED. eqbs. }
     + destruct (v_lend cf) eqn:Hl.
-      * destruct (v1_close_complete_lend _ _ _ _ _ _ _ _ _ Hl (Hb eq_refl) GA Hwho E) as (_ & EC & ED & _).
+      * destruct (v1_close_complete_lend _ _ _ _ _ _ _ _ _ _ _ _ Hl (Hb eq_refl) GA Hwho E) as (_ & EC & ED & _).
         split; lia.
       * rewrite Htg in *.
-        destruct (v1_close_complete_vault _ _ _ _ _ _ _ _ _ Hl (Hb0 eq_refl) GA ltac:(rewrite Htg; auto) Hwho E) as (_ & EC & ED & _).
+        destruct (v1_close_complete_vault _ _ _ _ _ _ _ _ _ _ _ _ Hl (Hb0 eq_refl) GA ltac:(rewrite Htg; auto) Hwho E) as (_ & EC & ED & _).
         assert (w_recv r - w_slice r = 0) by (rewrite Hrv; unfold v1_bonus_of; rewrite Hl; lia).
         split; lia.
   - unfold V1Cust, live_o, live_i; cbn [g_s g_a g_bonus].
     pose proof (v1_tick_amounts cf now pin pout a) as (T1 & T2 & _). rewrite T1, T2. split; assumption.
 Qed.
 
-Definition v1op_ok (o : v1op) : Prop := match o with V1Bid who _ _ => 0 <= who | _ => True end.
+Definition v1op_ok (o : v1op) : Prop := match o with V1Bid who _ _ _ _ => 0 <= who | _ => True end.
 
-Lemma v1_run_cust cf ao coll0 target c0 d0 ops :
+Lemma v1_run_cust cf ao lv coll0 target c0 d0 ops :
   (v_lend cf = true -> 0 <= v_bonus cf) -> (v_lend cf = false -> v_bonus cf = 0) ->
   (v_lend cf = false -> 0 <= ao <= target) -> Forall v1op_ok ops ->
   forall f, V1Inv cf coll0 target f -> V1Cust cf coll0 c0 d0 f ->
-  V1Inv cf coll0 target (v1_run cf ao f ops) /\ V1Cust cf coll0 c0 d0 (v1_run cf ao f ops).
+  V1Inv cf coll0 target (v1_run cf ao lv f ops) /\ V1Cust cf coll0 c0 d0 (v1_run cf ao lv f ops).
 Proof.
   intros Hb Hb0 Hao Hops. induction Hops as [|o ops Ho _ IH]; intros f HI HC; [split; assumption|].
   cbn. apply IH; [apply v1_step_inv; assumption | apply v1_step_cust with (target := target); assumption].
 Qed.
 
-Lemma v1_custody cf coll ao pen fees now pin pout a0 s ops :
+Lemma v1_custody cf lv coll ao pen fees now pin pout a0 s ops :
   (v_lend cf = true -> 0 <= v_bonus cf) -> (v_lend cf = false -> v_bonus cf = 0) ->
   0 <= coll -> 0 <= ao -> 0 <= pen -> 0 <= fees -> Forall v1op_ok ops ->
   v1_activate cf coll ao pen fees now pin pout = Ok a0 ->
-  let f := v1_run cf ao (mkV1L s (Some a0) 0 0 0 0) ops in
+  let f := v1_run cf ao lv (mkV1L s (Some a0) 0 0 0 0) ops in
   v_led (g_s f) AUC_C - live_o f = (v_led s AUC_C - coll) - g_bonus f /\
   v_led (g_s f) AUC_D - live_i cf f = v_led s AUC_D.
 Proof.
@@ -521,7 +530,7 @@ Proof.
   { unfold V1Inv; cbn. repeat split; try lia; try apply GA. }
   assert (HC : V1Cust cf coll (v_led s AUC_C) (v_led s AUC_D) (mkV1L s (Some a0) 0 0 0 0)).
   { unfold V1Cust, live_o, live_i; cbn. destruct (v_lend cf); lia. }
-  destruct (v1_run_cust cf ao coll (i_target a0) _ _ ops Hb Hb0 ltac:(intros; lia) Hops _ HI HC) as (_ & (H1 & H2)).
+  destruct (v1_run_cust cf ao lv coll (i_target a0) _ _ ops Hb Hb0 ltac:(intros; lia) Hops _ HI HC) as (_ & (H1 & H2)).
   fold f in H1, H2. split; lia.
 Qed.
 
@@ -533,14 +542,110 @@ Definition l_au : v1auc := mkV1A 213393065 211707829 0 1507500000000000000000000
                                  1507500000000000000000000 904500000000000000000000 0 21600.
 Definition l_led : ledger := fun k => if k =? 0 then 234732372 else if k =? 11 then 4611686018427387904 else 0.
 
+(* the locked borrow behind it: the whole collateral was seized (AmountIn 0), so the close has nothing to value *)
+Definition l_lv : v1lv := mkV1LV 0 190000000 190000000.
+
 Lemma lend_bonus_stranded :
-  exists s' r, v1_place_bid l_cf 0 l_au (mkV1S l_led None) 0 213393065 false = Ok (s', None, r) /\
+  exists s' r, v1_place_bid l_cf 0 l_lv l_au (mkV1S l_led None) 0 213393065 false (Some 1013000) (Some 1005000) = Ok (s', None, r) /\
     w_paid r = 211707829 /\ w_slice r = 142262043 /\ w_recv r = 156488247 /\
     v_led s' OWN_C = 71131022 /\ v_led s' AUC_C = 7113103 /\
     kf_C10_4 true 234732372 213393065 (w_recv r - w_slice r) = true /\
     holds_C10_v1_custody (v_led s' AUC_C) (v_led s' AUC_D) = false.
 Proof.
-  destruct (v1_place_bid l_cf 0 l_au (mkV1S l_led None) 0 213393065 false) as [[[s' [a'|]] r]| |] eqn:E;
+  destruct (v1_place_bid l_cf 0 l_lv l_au (mkV1S l_led None) 0 213393065 false (Some 1013000) (Some 1005000)) as [[[s' [a'|]] r]| |] eqn:E;
     vm_compute in E; try discriminate.
   exists s', r. split; [reflexivity|]. injection E as <- <-. vm_compute. repeat split; reflexivity.
+Qed.
+
+(* ---------- the bid that closes a lend auction needs the price feeds (fix 6257748) ---------- *)
+(* the locked borrow after the close still has debt and collateral: UnLiquidateLockedBorrows has to value it *)
+Definition v1_lv_open (lv : v1lv) (target : Z) : bool :=
+  negb (lv_out (v1_lv_after_close lv target) =? 0) && negb (lv_in (v1_lv_after_close lv target) =? 0).
+
+Lemma v1_lend_unliquidate_closed cf lv target pin pout :
+  v1_lv_open lv target = false -> v1_lend_unliquidate cf lv target pin pout = Ok None.
+Proof.
+  unfold v1_lv_open, v1_lend_unliquidate. cbv zeta.
+  destruct (lv_out (v1_lv_after_close lv target) =? 0); [reflexivity|].
+  destruct (lv_in (v1_lv_after_close lv target) =? 0); [reflexivity|]. discriminate.
+Qed.
+
+Lemma v1_lend_unliquidate_needs_feeds cf lv target pin pout :
+  v1_lv_open lv target = true ->
+  (pin = None \/ pout = None -> v1_lend_unliquidate cf lv target pin pout = Err 17 \/
+                               v1_lend_unliquidate cf lv target pin pout = Panic) /\
+  (forall v, v1_lend_unliquidate cf lv target pin pout = Ok v ->
+     exists td tc ratio, pin = Some td /\ pout = Some tc /\ v = Some ratio).
+Proof.
+  unfold v1_lv_open, v1_lend_unliquidate. cbv zeta.
+  destruct (lv_out (v1_lv_after_close lv target) =? 0); [discriminate|].
+  destruct (lv_in (v1_lv_after_close lv target) =? 0); [discriminate|]. intros _.
+  destruct pout as [tc|]; cbn [v1_asset_value obind].
+  - destruct (usd_value_c (v_dout cf) (dec_of_int tc) _) as [tin|]; cbn [opanic obind].
+    + destruct pin as [td|]; cbn [v1_asset_value obind].
+      * split; [intros [?|?]; discriminate|].
+        destruct (usd_value_c (v_din cf) (dec_of_int td) _) as [tout|]; cbn [opanic obind]; [|discriminate].
+        destruct (dquo_c tout tin) as [ratio|]; cbn [opanic obind]; [|discriminate].
+        intros v [= <-]. exists td, tc, ratio. auto.
+      * split; [auto|discriminate].
+    + split; [auto|discriminate].
+  - split; [auto|discriminate].
+Qed.
+
+(* the whole message against its core: identical for vault auctions, for every bid that leaves the auction open
+   and for every failing core; the closing bid of a lend auction succeeds exactly when UnLiquidateLockedBorrows
+   does, and fails with its failure *)
+Lemma v1_place_bid_spec cf ao lv a s who bid wd pin pout :
+  match v1_place_bid_core cf ao a s who bid wd with
+  | Ok (s', None, r) =>
+      if v_lend cf then
+        match v1_lend_unliquidate cf lv (i_target a) pin pout with
+        | Ok _ => v1_place_bid cf ao lv a s who bid wd pin pout = Ok (s', None, r)
+        | Err c => v1_place_bid cf ao lv a s who bid wd pin pout = Err c
+        | Panic => v1_place_bid cf ao lv a s who bid wd pin pout = Panic
+        end
+      else v1_place_bid cf ao lv a s who bid wd pin pout = Ok (s', None, r)
+  | x => v1_place_bid cf ao lv a s who bid wd pin pout = x
+  end.
+Proof.
+  unfold v1_place_bid. destruct (v1_place_bid_core cf ao a s who bid wd) as [[[s' [b|]] r]| |]; try reflexivity.
+  destruct (v_lend cf); [|reflexivity]. destruct (v1_lend_unliquidate cf lv (i_target a) pin pout); reflexivity.
+Qed.
+
+(* fail-closed: a bid whose core would close a lend auction while the locked borrow keeps debt and collateral is
+   refused when the feed of the debt or of the collateral asset is missing or inactive - and a refused bid
+   leaves the auction's life exactly as it was *)
+Lemma v1_lend_close_fail_closed cf ao lv a s who bid wd pin pout s' r :
+  v_lend cf = true ->
+  v1_place_bid_core cf ao a s who bid wd = Ok (s', None, r) ->
+  v1_lv_open lv (i_target a) = true -> (pin = None \/ pout = None) ->
+  v1_place_bid cf ao lv a s who bid wd pin pout = Err 17 \/ v1_place_bid cf ao lv a s who bid wd pin pout = Panic.
+Proof.
+  intros Hl Hc Ho Hf. pose proof (v1_place_bid_spec cf ao lv a s who bid wd pin pout) as S. rewrite Hc, Hl in S.
+  destruct (v1_lend_unliquidate_needs_feeds cf lv (i_target a) pin pout Ho) as (N & _). specialize (N Hf).
+  destruct N as [N|N]; rewrite N in S; auto.
+Qed.
+
+(* conversely: a lend auction is closed by a bid only with the locked borrow cleared or both feeds active *)
+Lemma v1_lend_close_needs_feeds cf ao lv a s who bid wd pin pout s' r :
+  v_lend cf = true ->
+  v1_place_bid cf ao lv a s who bid wd pin pout = Ok (s', None, r) ->
+  v1_lv_open lv (i_target a) = false \/ exists td tc, pin = Some td /\ pout = Some tc.
+Proof.
+  intros Hl H. pose proof (v1_place_bid_spec cf ao lv a s who bid wd pin pout) as S.
+  rewrite (v1_place_bid_ok _ _ _ _ _ _ _ _ _ _ _ H), Hl in S.
+  destruct (v1_lv_open lv (i_target a)) eqn:Ho; [right|left; reflexivity].
+  destruct (v1_lend_unliquidate_needs_feeds cf lv (i_target a) pin pout Ho) as (_ & N).
+  destruct (v1_lend_unliquidate cf lv (i_target a) pin pout) as [v| |] eqn:E; [|congruence|congruence].
+  destruct (N v eq_refl) as (td & tc & _ & -> & -> & _). eauto.
+Qed.
+
+Lemma v1_step_refused cf ao lv f a who amt wd pin pout :
+  g_a f = Some a ->
+  (forall x, v1_place_bid cf ao lv a (g_s f) who amt wd pin pout <> Ok x) ->
+  v1_step cf ao lv f (V1Bid who amt wd pin pout) = f.
+Proof.
+  intros Ea Hn. unfold v1_step. rewrite Ea.
+  destruct (v1_place_bid cf ao lv a (g_s f) who amt wd pin pout) as [x| |]; [|reflexivity|reflexivity].
+  exfalso. exact (Hn x eq_refl).
 Qed.
